@@ -65,7 +65,7 @@ func budget(tier string) time.Duration {
 	if tier == "thorough" {
 		return 25 * time.Minute
 	}
-	return 300 * time.Second
+	return 480 * time.Second
 }
 
 // runStart: a time shared by all workers of one run. The first worker creates
